@@ -507,7 +507,9 @@ pub fn run_random<D: Driver>(opts: &RunOpts) -> Outcome {
     let mut en: Vec<Ev> = vec![];
     let mut stop = false;
     let mut scenario_queue: VecDeque<(String, Vec<Ev>)> = VecDeque::new();
-    if opts.mode == "scenario" || opts.mode == "random" {
+    // hand written prefixes run on every 4th shard of a leg (they are deterministic: repeating them on
+    // every shard adds nothing) and always in scenario mode
+    if opts.mode == "scenario" || (opts.mode == "random" && opts.shard % 4 == 0) {
         for c in &cfgs {
             for s in D::scenarios(c) {
                 scenario_queue.push_back((c.clone(), s));
@@ -587,7 +589,9 @@ pub fn run_random<D: Driver>(opts: &RunOpts) -> Outcome {
                 // reference model and the implementation have diverged (model drift): whatever the models say
                 // from here on is not evidence, the history ends.
                 let is_target = |f: &Fail| opts.prop == f.prop || opts.prop == "all";
-                let drift = fs.iter().any(|f| !is_target(f) && !["C01", "C17", "C18", "C20"].contains(&f.prop));
+                // (a MODEL note alone - hooked state differs from the reference model while every API-visible
+                // result still agreed - does not end the history: what the API does next is still evidence)
+                let drift = fs.iter().any(|f| !is_target(f) && !["C01", "C17", "C18", "C20", "MODEL"].contains(&f.prop));
                 let fatal = drift || fs.iter().any(|f| f.pred == "no-panic-on-contract-respecting-history" || (f.pred == "queue-walk-sound" && f.detail.contains("dangling")));
                 tainted += 1;
                 if target_hit || fatal || stop || tainted > 40 {
